@@ -128,3 +128,28 @@ def register_enlarge(reg: Registry) -> None:
         ])},
         canaries=["len(self.routine_infos) == old(len(self.routine_infos))"],
         properties=["C03", "C10"])
+
+    # the ExplorerScript routine visitor has the same helper (without the duplicate-id clause: ascending ids are enforced before)
+    RV = "explorerscript.ssb_converting.compiler.compiler_visitor.routine_visitor"
+    reg.load_module(RV)
+    reg.fields({"RoutineVisitor.routine_infos": "list[Any]", "RoutineVisitor.routine_ops": "list[Any]",
+                "RoutineVisitor.named_coroutines": "list[Any]", "RoutineVisitor._active_routine_id": "int"})
+    reg.contract(
+        RV + ":RoutineVisitor._enlarge_routine_info", types={"self": "RoutineVisitor"},
+        requires=[T3,
+                  "self.routine_infos is not self.routine_ops and self.routine_infos is not self.named_coroutines and self.routine_ops is not self.named_coroutines"],
+        raises=[("SsbCompilerError", "self._active_routine_id < 0", True)],
+        ensures=[
+            T3,
+            "len(self.routine_infos) == ite(old(len(self.routine_infos)) > self._active_routine_id, old(len(self.routine_infos)), self._active_routine_id + 1)",
+            "all_int(lambda j: implies(0 <= j and j < old(len(self.routine_infos)), self.routine_infos[j] is old(self.routine_infos[j]) and self.routine_ops[j] is old(self.routine_ops[j]) and self.named_coroutines[j] is old(self.named_coroutines[j])))",
+            "all_int(lambda j: implies(old(len(self.routine_infos)) <= j and j < len(self.routine_infos), is_none(self.routine_infos[j]) and fresh(self.routine_ops[j]) and len(typed(self.routine_ops[j], 'list[Any]')) == 0))",
+        ],
+        modifies=["list(self.routine_infos)", "list(self.routine_ops)", "list(self.named_coroutines)", "alloc"],
+        loops={0: dict(invariants=[
+            T3, "len(self.routine_infos) == at_loop_entry(len(self.routine_infos)) + it_i",
+            "all_int(lambda j: implies(0 <= j and j < at_loop_entry(len(self.routine_infos)), self.routine_infos[j] is at_loop_entry(self.routine_infos[j]) and self.routine_ops[j] is at_loop_entry(self.routine_ops[j]) and self.named_coroutines[j] is at_loop_entry(self.named_coroutines[j])))",
+            "all_int(lambda j: implies(at_loop_entry(len(self.routine_infos)) <= j and j < len(self.routine_infos), is_none(self.routine_infos[j]) and fresh(self.routine_ops[j]) and len(typed(self.routine_ops[j], 'list[Any]')) == 0))",
+        ])},
+        canaries=["len(self.routine_infos) == old(len(self.routine_infos))"],
+        properties=["C03", "C10"])
